@@ -69,6 +69,49 @@ FMT_EDITS = {   # (file, old text, new text): each edited copy of the package mu
 }
 
 
+NAMES_EDITS = {   # each edited copy must be refused by translate_names
+    "sort by another key": ("ndl.py", "binary_files.sort(key=lambda filename: int(os.path.basename(filename)[9:-4]))",
+                            "binary_files.sort(key=len)"),
+    "plain sort": ("wh.py", "binary_files.sort(key=lambda filename: int(os.path.basename(filename)[9:-4]))",
+                   "binary_files.sort()"),
+    "sorted()": ("ndl.py", "binary_files.sort(key=lambda filename: int(os.path.basename(filename)[9:-4]))",
+                 "binary_files = sorted(binary_files)"),
+    "slice with a name": ("wh.py", "os.path.basename(filename)[9:-4]", "os.path.basename(filename)[PREFIX:-4]"),
+    "key without basename": ("ndl.py", "int(os.path.basename(filename)[9:-4])", "int(filename[9:-4])"),
+    "two templates": ("preprocess.py", '"events_0_%i.dat" % ii', '("events_0_%i.dat" % ii) if ii else ("events_0_%i.dat" % 0)'),
+    "template from a name": ("preprocess.py", '"events_0_%i.dat" % ii', 'TEMPLATE % ii'),
+}
+
+
+def names_selftest(pkg, bad):
+    import shutil
+    import tempfile
+    try:
+        py2coq.translate_names(pkg)
+    except Exception:      # noqa
+        return 0
+    n = 0
+    for name, (fname, old, new) in NAMES_EDITS.items():
+        with open(os.path.join(pkg, fname), encoding="utf-8") as f:
+            text = f.read()
+        if text.count(old) < 1:
+            continue
+        d = tempfile.mkdtemp(prefix="py2coq-selftest-")
+        try:
+            for g in ("preprocess.py", "ndl.py", "wh.py"):
+                shutil.copy(os.path.join(pkg, g), d)
+            with open(os.path.join(d, fname), "w", encoding="utf-8") as f:
+                f.write(text.replace(old, new, 1))
+            try:
+                py2coq.translate_names(d)
+                bad.append("chunk names: %s was accepted" % name)
+            except (py2coq.Unsupported, SyntaxError):
+                n += 1
+        finally:
+            shutil.rmtree(d, ignore_errors=True)
+    return n
+
+
 def fmt_selftest(pkg, bad):
     """the format-constant reader refuses edited copies; skipped (0) when the tree under test no longer has the pinned
     shape, in which case translate_fmt itself decides"""
@@ -122,11 +165,12 @@ def main():
         except Exception as e:      # noqa
             bad.append("target %s of %s does not translate: %s" % (t["term"], pkg, e))
     n_fmt = fmt_selftest(pkg, bad)
+    n_names = names_selftest(pkg, bad)
     if bad:
         print("\n".join(bad))
         sys.exit(1)
     print("py2coq self-test: %d constructs refused, fragment accepted, %d targets translate; format constants: %d "
-          "edited copies refused" % (len(REFUSED), len(py2coq.TARGETS), n_fmt))
+          "edited copies refused; chunk names: %d edited copies refused" % (len(REFUSED), len(py2coq.TARGETS), n_fmt, n_names))
 
 
 if __name__ == "__main__":
